@@ -22,7 +22,8 @@ EXPLANATION = (
     "payment (`other`), supports as support, purchases as purchase; coin selection restricts to other/purchase "
     "(C03/C14); Input.spend asserts pay-to-pubkey-hash."
 )
-TECHNIQUE = "static analysis: constant evaluation of the template table, exhaustive pairwise non-unifiability, exact-boundary ladder comparison, predicate/opcode table agreement"
+EXACTNESS = "Second pass (DESIGN.md §10, exactness / completeness halves) — per opcode kind what the generator writes and the parser stores, cursor discipline of the parser, first matching template wins, tokenizer classification."
+TECHNIQUE = "static analysis: constant evaluation of the template table, exhaustive pairwise non-unifiability, exact-boundary ladder comparison, predicate/opcode table agreement; exact fact-set comparison of the tests dominating each effect and refusal (effect / refusal tables), fall-through path queries"
 NOT_DECIDED = "that an arbitrary generated script parses back to the same values at every data length beyond ladder agreement (BCDataStream behaviour); multi-signature template ambiguity (outside the statement)"
 ASSUMPTIONS = ["template tuples are only built at class-definition time (no run-time registration)"]
 
